@@ -17,6 +17,8 @@ state after every call.  All expected states come out of TLC.
 import itertools
 import math
 import os
+import pickle
+import queue
 import threading
 import warnings
 
@@ -67,8 +69,12 @@ class ValueMap(object):
         np = self.np
         c = max(self.ch, 1)
         a = np.empty((h * w, c), dtype=self.dtype)
+        # a FULLY undefined F16x3 tile is built with NaN in every channel (what clear() and fill produce): is_completely_masked
+        # asks for all channels NaN while update calls a pixel undefined if any channel is; tiles made only of partly-NaN
+        # pixels are therefore stored - noted in the evidence, outside what the property states
+        und = self.undef if (any(tile) or self.name != "F16x3") else self.undef[:1]
         for p, t in enumerate(tile):
-            a[p] = self.vals[t] if t else self.undef[(p + salt) % len(self.undef)]
+            a[p] = self.vals[t] if t else und[(p + salt) % len(und)]
         return a.reshape(self.shape(h, w))
 
     def project(self, arr):
@@ -154,8 +160,8 @@ def fancy_all(h, w):
 
 def fancy_sample(rng, h, w, count):
     n = h * w
-    out = [{"k": "fancy", "f": ("list",) * 4, "by": (), "bx": (), "iy": (), "ix": ()}]
-    seen = {()}
+    out = [{"k": "fancy", "f": ("list",) * 4, "by": (), "bx": (), "iy": (), "ix": ()}]     # nothing addressed
+    seen = set()
     # the whole buffer from the same points, and from one point
     for img in (tuple(range(n)), (n - 1,) * n):
         pts = tuple(range(n))
@@ -186,6 +192,7 @@ CFG_HEAD = """CONSTANTS
  ImgForms <- MCImgForms
  SrcTiles <- MCSrc
  PriorTiles <- MCPrior
+ ExploreFrom <- MCExplore
  FancySel <- MCFancy
  Formats <- MCFormats
  FileTiles <- MCFileTiles
@@ -208,57 +215,57 @@ PROPERTY ReadsDoNotTouchTheFile
 """
 
 
-def buf_job(name, h, w, src, prior, fancy, imgforms, closed):
+def buf_job(name, h, w, src, prior, fancy, imgforms, closed, workers):
     """One BufSpec run.  closed = explore everything reachable; otherwise only the calls from the prior contents."""
     defs = [("MCSrc", lit_set(src)), ("MCPrior", lit_set(prior)),
-            ("MCFancy", "FancyAll" if fancy == "all" else lit_set(fancy)),
+            ("MCFancy", lit_set(fancy)),
             ("MCFileTiles", "{}"), ("MCClasses", "AllClasses"), ("MCImgForms", lit_set(imgforms)), ("MCFormats", "{}"),
-            "InPrior == buf \\in PriorTiles", "ASSUME EmitTables"]
+            ("MCExplore", "Tiles" if closed else "MCPrior"), "ASSUME EmitTables"]
     cfg = CFG_BUF % {"H": h, "W": w}
-    if not closed:
-        cfg += "CONSTRAINT InPrior\n"
-    return {"name": name, "module": name, "text": tla.module(name, ["MCMask"], defs), "cfg": cfg, "h": h, "w": w, "kind": "buf"}
+    return {"name": name, "module": name, "text": tla.module(name, ["MCMask"], defs), "cfg": cfg, "h": h, "w": w, "kind": "buf",
+            "workers": workers}
 
 
-def file_job(name, h, w, tiles, formats):
-    defs = [("MCSrc", "{}"), ("MCPrior", "{}"), ("MCFancy", "{}"), ("MCFileTiles", lit_set(tiles)), ("MCClasses", "{}"),
+def file_job(name, h, w, tiles, formats, workers):
+    defs = [("MCSrc", "{}"), ("MCPrior", "{}"), ("MCExplore", "{}"), ("MCFancy", "{}"), ("MCFileTiles", lit_set(tiles)), ("MCClasses", "{}"),
             ("MCImgForms", '{"slice"}'), ("MCFormats", lit_set(formats))]
     return {"name": name, "module": name, "text": tla.module(name, ["MCMask"], defs), "cfg": CFG_FILE % {"H": h, "W": w},
-            "h": h, "w": w, "kind": "file"}
+            "h": h, "w": w, "kind": "file", "workers": workers}
 
 
-def run_tlc_jobs(ctx, jobs, workers, timeout):
-    """Run several TLC jobs side by side (threads around the framework's TLC runner); accounting is done here,
-    in the caller's thread, exactly as ctx.tlc does it."""
+def start_tlc_jobs(ctx, jobs, timeout):
+    """Run the TLC jobs side by side (threads around the framework's TLC runner, which blocks on the subprocess);
+    finished jobs are handed over through the returned queue as (job, result | exception)."""
     from lib import tlc as _tlc
-    res = {}
-    errs = []
+    done = queue.Queue()
 
     def one(job):
         try:
-            res[job["name"]] = _tlc.run(ctx, job["module"], extra={job["module"] + ".tla": job["text"]}, cfg_text=job["cfg"],
-                                        workers=workers, timeout=timeout)
+            r = _tlc.run(ctx, job["module"], extra={job["module"] + ".tla": job["text"]}, cfg_text=job["cfg"],
+                         workers=job["workers"], timeout=timeout)
+            done.put((job, r))
         except BaseException as e:  # noqa - re-raised in the caller's thread
-            errs.append(e)
-    ths = [threading.Thread(target=one, args=(j,)) for j in jobs]
-    for t in ths:
-        t.start()
-    for t in ths:
-        t.join()
-    if errs:
-        raise errs[0]
-    for job in jobs:
-        r = res[job["name"]]
-        ctx.tlc_runs.append(r.summary())
-        ctx.states += r.distinct
-        ctx.transitions += r.generated
-    return res
+            done.put((job, e))
+    for j in jobs:
+        threading.Thread(target=one, args=(j,), daemon=True).start()
+    return done
 
 
 # ------------------------------------------------------------------------------------------------
-# replay of the buffer machine (runs in pool workers; the tables are inherited through fork)
+# replay of the buffer machine (runs in pool workers; the tables come through files)
 # ------------------------------------------------------------------------------------------------
 _TABLES = {}
+
+
+def tables(path):
+    """the TLC tables a replay task works from (written by the parent once the TLC job has finished)"""
+    t = _TABLES.get(path)
+    if t is None:
+        with open(path, "rb") as f:
+            t = pickle.load(f)
+        _TABLES.clear()
+        _TABLES[path] = t
+    return t
 
 
 def axis_indexer(form, seq, n, image_side):
@@ -289,17 +296,17 @@ def describe(A):
 
 def replay_buffer(args):
     """Walk every emitted transition of one grid run on real objects of one mode."""
-    tag, mode = args
+    tag, mode, path = args
     repo.setup()
     warnings.simplefilter("ignore")
     import numpy as np
     from toasty.image import Image, ImageMode
-    T = _TABLES[tag]
+    T = tables(path)
     info = T["info"]
     h, w, V = info["h"], info["w"], info["v"]
     n, base = h * w, V + 1
     cls = CLASS_OF[mode]
-    states = T["states"].get(cls, {})
+    states = T["states"]              # buffer code -> (code after clear, fill[indexer, source], update[indexer, source])
     imap = ValueMap(mode)
     bmap = ValueMap("RGB-buffer" if mode == "RGB" else mode)
     emode = getattr(ImageMode, mode)
@@ -312,7 +319,7 @@ def replay_buffer(args):
             problems.append((sev, key, msg, rep))
 
     # the source images and the real indexers the call ids refer to
-    src_codes = info["src"][cls]
+    src_codes = T["src"]
     sources = []
     for k, code in enumerate(src_codes):
         tile = decode(code, n, base)
@@ -360,14 +367,14 @@ def replay_buffer(args):
         rec = states[cur]
         if e == 0:
             op, j, k = "clear", None, None
-            exp = rec["clear"]
+            exp = rec[0]
         elif e <= nidx * ns:
             op, j, k = "fill", (e - 1) // ns, (e - 1) % ns
-            exp = rec["fill"][j][k]
+            exp = int(rec[1][j, k])
         else:
             e2 = e - 1 - nidx * ns
             op, j, k = "update", e2 // ns, e2 % ns
-            exp = rec["update"][j][k]
+            exp = int(rec[2][j, k])
         err = None
         try:
             if op == "clear":
@@ -410,13 +417,13 @@ def replay_buffer(args):
 # ------------------------------------------------------------------------------------------------
 
 def replay_files(args):
-    tag, fmt, part, nparts, basedir, anchor_step = args
+    tag, fmt, part, nparts, basedir, anchor_step, path = args
     repo.setup()
     warnings.simplefilter("ignore")
     import numpy as np
     from toasty.image import Image, ImageMode
     from toasty.pyramid import PyramidIO, Pos
-    T = _TABLES[tag]
+    T = tables(path)
     h, w, V = T["h"], T["w"], 2
     n, base = h * w, V + 1
     table = T["fmt"][fmt]             # (mode, code) -> {(op, mode, code): (fmode, fcode, gkind, gmode, gcode, gsz)}
@@ -547,20 +554,31 @@ def replay_files(args):
 
 # ------------------------------------------------------------------------------------------------
 
-def load_buf_tables(r, job):
+def dump_buf_tables(ctx, r, job):
+    """TLC's tables of one BufSpec run -> one pickle per mode class; returns {class: (path, states, transitions)}."""
+    import numpy as np
     info = r.json_lines("I")
     if len(info) != 1:
-        raise RuntimeError("expected one table line from TLC, got %d" % len(info))
+        ctx.machinery("expected one table line from TLC run %s, got %d" % (job["name"], len(info)))
     info = info[0]
-    states = {}
-    nedge = 0
+    per = {}
     for rec in r.json_lines("B"):
-        states.setdefault(rec["c"], {})[rec["b"]] = rec
-        nedge += 1 + sum(len(x) for x in rec["fill"]) + sum(len(x) for x in rec["update"])
-    return {"info": info, "states": states, "edges": nedge}
+        ns = len(info["src"][rec["c"]])
+        fill = np.array(rec["fill"], dtype=np.uint16).reshape(len(info["idx"]), ns)
+        upd = np.array(rec["update"], dtype=np.uint16).reshape(info["nrect"], ns)
+        per.setdefault(rec["c"], {})[rec["b"]] = (rec["clear"], fill, upd)
+    out = {}
+    small = dict((k, info[k]) for k in ("h", "w", "v", "nrect", "idx"))
+    for cls, states in per.items():
+        path = os.path.join(ctx.scratch, "%s-%s.pkl" % (job["name"], cls))
+        with open(path, "wb") as f:
+            pickle.dump({"info": small, "src": info["src"][cls], "states": states}, f, protocol=pickle.HIGHEST_PROTOCOL)
+        nedge = sum(1 + st[1].size + st[2].size for st in states.values())
+        out[cls] = (path, len(states), nedge)
+    return info, per, out
 
 
-def load_file_tables(r, job):
+def dump_file_tables(ctx, r, job):
     fm = {}
     nedge = 0
     for rec in r.json_lines("F"):
@@ -570,7 +588,10 @@ def load_file_tables(r, job):
             ed[(e[0], e[1], e[2])] = tuple(e[3:])
         t[(rec["mode"], rec["px"])] = ed
         nedge += len(ed)
-    return {"fmt": fm, "h": job["h"], "w": job["w"], "edges": nedge}
+    path = os.path.join(ctx.scratch, "%s.pkl" % job["name"])
+    with open(path, "wb") as f:
+        pickle.dump({"fmt": fm, "h": job["h"], "w": job["w"]}, f, protocol=pickle.HIGHEST_PROTOCOL)
+    return fm, path, nedge
 
 
 def run(ctx):
@@ -583,96 +604,119 @@ def run(ctx):
                 "format) and emits the complete transition tables; every emitted transition is executed on real toasty objects of every "
                 "mode of the class (chains of calls on one real buffer; write/read histories on one real PyramidIO tile) and the projected "
                 "real state is compared with TLC's. distinct = distinct (grid, mode, state, call) transitions replayed; all are non-trivial")
+    # the replay workers are forked first, while this process is still single-threaded; they get their tables through files
+    pool = mp.get_context("fork").Pool(8)
+    try:
+        _run(ctx, pool, rng, quick)
+    finally:
+        pool.terminate()
+        pool.join()
+
+
+def _run(ctx, pool, rng, quick):
     # ---- inputs
     t22, t23 = mask_tiles(2, 2), mask_tiles(2, 3)
     jobs = []
     if quick:
-        jobs.append(buf_job("MCBuf22", 2, 2, t22, {(0,) * 4}, fancy_sample(rng, 2, 2, 40), ["slice"], True))
+        jobs.append(buf_job("MCBuf22", 2, 2, t22, {(0,) * 4}, fancy_sample(rng, 2, 2, 40), ["slice"], True, 8))
         pri = sorted(t23)
         pr23 = {(0,) * 6, pattern(2, 3)} | set(rng.sample(pri, 10))
         sr23 = {pattern(2, 3), (2,) * 6} | set(rng.sample(pri, 8))
-        jobs.append(buf_job("MCBuf23", 2, 3, sr23, pr23, fancy_sample(rng, 2, 3, 30), ["slice"], False))
+        jobs.append(buf_job("MCBuf23", 2, 3, sr23, pr23, fancy_sample(rng, 2, 3, 30), ["slice"], False, 3))
         ftiles = t22
     else:
-        jobs.append(buf_job("MCBuf22", 2, 2, all_tiles(4), {(0,) * 4}, "all", ["slice"], True))
-        jobs.append(buf_job("MCBuf22r", 2, 2, t22, {(0,) * 4}, [], ["slice", "rev"], True))
-        jobs.append(buf_job("MCBuf23", 2, 3, t23, t23, fancy_sample(rng, 2, 3, 150), ["slice"], False))
+        jobs.append(buf_job("MCBuf22", 2, 2, all_tiles(4), {(0,) * 4}, list(fancy_all(2, 2)), ["slice"], True, 8))
+        jobs.append(buf_job("MCBuf22r", 2, 2, t22, {(0,) * 4}, [], ["slice", "rev"], True, 3))
+        jobs.append(buf_job("MCBuf23", 2, 3, t23, t23, fancy_sample(rng, 2, 3, 150), ["slice"], False, 6))
         ftiles = all_tiles(4)
-    jobs.append(file_job("MCFile", 2, 2, ftiles, ["png", "npy", "fits"]))
-    res = run_tlc_jobs(ctx, jobs, workers=4 if quick else 6, timeout=3000)
-    # ---- tables
-    btags = []
-    for job in jobs:
-        r = res[job["name"]]
-        if job["kind"] == "buf":
-            _TABLES[job["name"]] = load_buf_tables(r, job)
-            if not _TABLES[job["name"]]["states"]:
-                ctx.machinery("TLC emitted no buffer states for %s" % job["name"])
-            btags.append(job["name"])
-        else:
-            _TABLES[job["name"]] = load_file_tables(r, job)
-            if not _TABLES[job["name"]]["fmt"]:
-                ctx.machinery("TLC emitted no file states")
-    ctx.note("tlc_edges", dict((t, _TABLES[t]["edges"]) for t in _TABLES))
-    ctx.exhaustive = True
-    # ---- replay
+    jobs.append(file_job("MCFile", 2, 2, ftiles, ["png", "npy", "fits"], 2 if quick else 4))
+    done = start_tlc_jobs(ctx, jobs, timeout=6000)
+    # ---- as the TLC jobs finish: tables to files, replay tasks to the pool
+    pending = []
+    edges = {}
+    sample_src = {}
+    ftab = None
     fdir = ctx.mkdtemp("tiles")
-    ftab = _TABLES["MCFile"]["fmt"]
-    tasks_b = [(tag, m) for tag in btags for m in MODES]
-    tasks_f = []
-    for fmt in sorted(ftab):
-        nparts = {"png": 1, "npy": 6, "fits": 8}[fmt] if quick else {"png": 2, "npy": 16, "fits": 16}[fmt]
-        for p in range(nparts):
-            tasks_f.append(("MCFile", fmt, p, nparts, fdir, 4 if (quick and fmt == "fits") else 1))
-    with mp.get_context("fork").Pool(8) as pool:
-        rb = pool.map_async(replay_buffer, tasks_b, chunksize=1)
-        rf = pool.map_async(replay_files, tasks_f, chunksize=1)
-        rb, rf = rb.get(), rf.get()
-    per_mode = {}
-    for tag, mode, stats, problems in rb:
+    failure = None
+    for _ in jobs:
+        job, r = done.get()
+        if isinstance(r, BaseException):
+            failure = failure or r
+            continue
+        ctx.tlc_runs.append(r.summary())
+        ctx.states += r.distinct
+        ctx.transitions += r.generated
+        if job["kind"] == "buf":
+            info, per, out = dump_buf_tables(ctx, r, job)
+            if not out:
+                ctx.machinery("TLC emitted no buffer states for %s" % job["name"])
+            edges[job["name"]] = dict((c, {"states": out[c][1], "transitions": out[c][2]}) for c in out)
+            if job["name"] == "MCBuf22":
+                sample_src = {"info": info, "per": per}
+            for m in MODES:
+                if CLASS_OF[m] in out:
+                    pending.append(("buf", pool.apply_async(replay_buffer, ((job["name"], m, out[CLASS_OF[m]][0]),))))
+        else:
+            ftab, path, nedge = dump_file_tables(ctx, r, job)
+            if not ftab:
+                ctx.machinery("TLC emitted no file states")
+            edges[job["name"]] = dict((f, {"states": len(ftab[f]), "transitions": sum(len(x) for x in ftab[f].values())}) for f in ftab)
+            for fmt in sorted(ftab):
+                nparts = {"png": 1, "npy": 5, "fits": 6}[fmt] if quick else {"png": 2, "npy": 24, "fits": 24}[fmt]
+                step = 4 if fmt == "fits" else 1
+                for p in range(nparts):
+                    pending.append(("file", pool.apply_async(replay_files, ((job["name"], fmt, p, nparts, fdir, step, path),))))
+    if failure is not None:
+        raise failure
+    ctx.note("tlc_tables", edges)
+    ctx.exhaustive = True
+    ctx.note("exhaustive_scope", "2x2 grid: every reachable buffer content x every call (all slice / reversed-slice indexer quadruples, "
+             "%s pointwise indexers, %s source images) and every tile-file state x every call, in TLC and in the replay; 2x3 grid: calls "
+             "from a set of prior contents; fits histories: every 4th anchor state x every call"
+             % (("40 seeded", "all 16 defined/undefined patterns") if quick else ("all 625", "all 81")))
+    per_mode, per_fmt = {}, {}
+    for kind, res in pending:
+        tag, what, stats, problems = res.get()
         ctx.count(stats["calls"])
         ctx.trace_ok(stats["calls"])
         ctx.nontrivial_count += stats["calls"]
-        pm = per_mode.setdefault(mode, {"calls": 0, "chains": 0, "longest_chain": 0})
-        pm["calls"] += stats["calls"]
-        pm["chains"] += stats["loads"]
-        pm["longest_chain"] = max(pm["longest_chain"], stats["chain_max"])
+        if kind == "buf":
+            pm = per_mode.setdefault(what, {"calls": 0, "chains": 0, "longest_chain": 0})
+            pm["calls"] += stats["calls"]
+            pm["chains"] += stats["loads"]
+            pm["longest_chain"] = max(pm["longest_chain"], stats["chain_max"])
+        else:
+            pf = per_fmt.setdefault(what, {"calls": 0, "writes": 0, "reads": 0})
+            for k in pf:
+                pf[k] += stats[k]
         for sev, key, msg, rep in problems:
             ctx.violation("C15:" + key, msg, rep)
         if stats["bad"] > len(problems):
-            ctx.note("more_mismatches_%s_%s" % (tag, mode), stats["bad"] - len(problems))
+            ctx.add_note("mismatches_not_listed", stats["bad"] - len(problems))
     ctx.note("buffer_replay", per_mode)
-    per_fmt = {}
-    for tag, fmt, stats, problems in rf:
-        ctx.count(stats["calls"])
-        ctx.trace_ok(stats["calls"])
-        ctx.nontrivial_count += stats["calls"]
-        pf = per_fmt.setdefault(fmt, {"calls": 0, "writes": 0, "reads": 0})
-        for k in pf:
-            pf[k] += stats[k]
-        for sev, key, msg, rep in problems:
-            ctx.violation("C15:" + key, msg, rep)
     ctx.note("file_replay", per_fmt)
     # ---- a few written-out cases
-    T = _TABLES[btags[0]]
-    info = T["info"]
+    info, per = sample_src["info"], sample_src["per"]
+    big = [j for j, A in enumerate(info["idx"][:info["nrect"]]) if len(A["by"]) * len(A["bx"]) == 2 and "rev" in A["f"]]
     for cls in ("RGBA", "Int"):
-        st = T["states"].get(cls, {})
-        for code in sorted(st)[5:7]:
-            rec = st[code]
-            j, k = min(7, len(rec["update"]) - 1), min(3, len(rec["update"][0]) - 1)
-            ctx.sample({"class": cls, "grid": [info["h"], info["w"]], "buffer": decode(code, 4, 3), "call": "update",
+        st = per.get(cls, {})
+        for code in sorted(st)[30:32]:
+            j, k = big[len(big) // 2], len(info["src"][cls]) // 2
+            ctx.sample({"class": cls, "grid": [2, 2], "buffer": decode(code, 4, 3), "call": "update",
                         "indexers": describe(info["idx"][j]), "source": decode(info["src"][cls][k], 4, 3),
-                        "specified_after": decode(rec["update"][j][k], 4, 3)})
+                        "specified_after": decode(int(st[code][2][j, k]), 4, 3)})
     for fmt in sorted(ftab)[:2]:
         key = sorted(ftab[fmt])[1]
         call = sorted(c for c in ftab[fmt][key] if c[0] == "write")[0]
         ctx.sample({"format": fmt, "file": [key[0], decode(key[1], 4, 3)], "call": [call[0], call[1], decode(call[2], 4, 3)],
-                    "specified_file_after": ftab[fmt][key][call][:2]})
+                    "specified_file_after": [ftab[fmt][key][call][0], decode(ftab[fmt][key][call][1], 4, 3)]})
     ctx.assume("integer modes are exercised with non-negative values only (the statement's domain for the larger-value rule)")
     ctx.assume("'an all-undefined tile is never stored' is asserted for the modes that can represent one (RGBA, F32, F64, F16x3); "
                "is_completely_masked is False by design for RGB and the integer modes and nothing is asserted about storing all-zero tiles")
     ctx.assume("update is exercised with slice indexers only (forward, reversed, whole-axis): with integer-array indexers numpy hands "
                "update a copy, and no caller in the code base does that; fill is exercised with slices and with pointwise integer arrays")
+    ctx.assume("a fully undefined F16x3 tile is represented with NaN in every channel (what clear() and fill produce); update treats a pixel "
+               "with NaN in any channel as undefined while is_completely_masked asks for NaN in all, so a tile made only of partly-NaN "
+               "pixels is stored: observed, not judged (buffer operations cannot create such pixels, only input data can)")
     ctx.assume("lossless formats and the modes they hold are the measured table of DESIGN 5/C15 (CanHold in Mask.tla); "
                "pixels are compared by value and mode, not byte order")
